@@ -24,8 +24,10 @@ META = {
     "technique": "exhaustive factorial of the six keep-alive factors executed on the real server; keep/close observed "
                  "operationally (second request answered vs EOF at virtual-loop quiescence) and compared with the statement's predicate",
     "level_text": "Every combination of version x Connection form x method x request-body framing x no_keep_alive x handler kind "
-                  "(buffered, flush-then-finish, early finish from prepare of a streaming handler with the body sent with/after the "
-                  "head, raises) x response status {200,204,304} is run once (quick) or under 6 segmentations x 3 read plans "
+                  "(buffered, flush-then-finish, early finish from prepare of a streaming handler with the body sent with the head / "
+                  "after the response was flushed / while the finished response is still being flushed, raises) x response status "
+                  "{200,204,304} x response-flush schedule (immediate, stalled write plan, real flow control with a 64 KiB response "
+                  "and a peer that does not read) is run once (quick) or under 6 segmentations x 3 read plans "
                   "(thorough); the observed persistence and the Connection response header are compared with the predicate in the statement.",
     "level_note": "Multi-token Connection values, Transfer-Encoding on an HTTP/1.0 request and 'early finish with no request body' "
                   "are UNSPECIFIED (executed, counted, only the header/EOF consistency clauses are applied). Closing when keeping "
@@ -35,16 +37,28 @@ META = {
 }
 RULE = ("cases are the full factorial version{1.0,1.1} x Connection{absent,close,Close,keep-alive,Keep-Alive,'close, x',upgrade} x "
         "method{GET,HEAD,POST} x request body{none,Content-Length,chunked,(1.0 POST) undelimited} x no_keep_alive x handler"
-        "{buffered,flush-then-finish,early-finish body-after,early-finish body-with,raises} x status{200,204,304} minus "
+        "{buffered,flush-then-finish,early-finish body-after,early-finish body-with,early-finish body-during-flush,raises} x "
+        "status{200,204,304} x flush schedule{immediate,stall,backpressure (thorough: +trickle,throttle)} minus "
         "inapplicable combinations; each is followed by a second request; non-trivial when the second request was sent or EOF "
         "pre-empted it; distinct by the factor tuple (+ segmentation/read plan in thorough)")
 FLOORS = {"quick": 2000, "thorough": 30000}
 ASSUMPTIONS = ["strict response reader is correct", "AF_UNIX socketpair + virtual loop: quiescence means nothing is in flight",
                "plain-TCP HTTPServer path; default idle_connection_timeout never fires before quiescence (virtual time)"]
-REQUIRED_COUNTERS = ["oracle_evals", "observed_keep", "observed_close", "expect_keep", "expect_close", "header_clause_evals"]
+REQUIRED_COUNTERS = ["oracle_evals", "observed_keep", "observed_close", "expect_keep", "expect_close", "header_clause_evals",
+                     "early_mid_flush_still_pending_after_body_arrived"]
 
 CONN_FORMS = [None, "close", "Close", "keep-alive", "Keep-Alive", "close, x", "upgrade"]
-KINDS = ["buffered", "flush", "early_after", "early_with", "raises"]
+KINDS = ["buffered", "flush", "early_after", "early_with", "early_mid", "raises"]
+# response-flush schedules: how long the finished response stays in the server's write buffer
+#   none          every write is accepted at once
+#   stall         wire.ScriptedIOStream write plan: nothing is accepted for 150 loop iterations (request bytes that
+#                 arrived in the same segment are parsed before the flush completes; a plan cannot outlast a quiet point)
+#   trickle       one byte per loop iteration
+#   throttle      C02's plan (small pieces, pauses) with a 64 KiB response body
+#   backpressure  real flow control: 4 KiB kernel send buffer, 64 KiB response body and a peer that reads nothing until it
+#                 has sent all its stages, so the flush is pending across quiet points while more request bytes arrive
+WPLANS = {"none": None, "stall": [0] * 150, "throttle": list(P.WPLAN_THROTTLE), "trickle": [1] * 400, "backpressure": None}
+BIG = b"x" * 65536
 STATUSES = [200, 204, 304]
 BODY = b"hello-body"
 
@@ -54,7 +68,7 @@ def EXHAUSTIVE(tier):
         "" if tier == "quick" else " x 6 segmentations x 3 read plans")
 
 
-def all_combos():
+def all_combos(wplans=("none", "stall", "backpressure")):
     for v, conn, m, nka, kind, status in itertools.product(("1.0", "1.1"), CONN_FORMS, ("GET", "HEAD", "POST"),
                                                             (False, True), KINDS, STATUSES):
         if kind == "raises" and status != 200:
@@ -63,8 +77,11 @@ def all_combos():
         if v == "1.0" and m == "POST":
             bodies = ["undelim", "cl", "chunked"]
         for b in bodies:
-            yield {"version": v, "conn": conn, "method": m, "nka": nka, "kind": kind, "status": status, "body": b,
-                   "seg": "whole", "rplan": "none"}
+            for wp in wplans:
+                if kind == "early_mid" and wp != "backpressure" and len(wplans) > 1:
+                    continue        # without real flow control it is the same schedule as early_after
+                yield {"version": v, "conn": conn, "method": m, "nka": nka, "kind": kind, "status": status, "body": b,
+                       "seg": "whole", "rplan": "none", "wplan": wp}
 
 
 SEGS = ["whole", "bytes", "random", "random", "at:20", "pairs"]
@@ -79,7 +96,7 @@ def shards(tier, seed):
 
 def gen_cases(spec):
     rng = core.rng_for(spec["seed"], PROP, spec["part"])
-    for i, c in enumerate(all_combos()):
+    for i, c in enumerate(all_combos() if not spec["variants"] else all_combos(("none",))):
         if i % spec["of"] != spec["part"]:
             continue
         if not spec["variants"]:
@@ -89,6 +106,8 @@ def gen_cases(spec):
             for rp in RPLANS:
                 d = dict(c)
                 d["seg"], d["rplan"], d["vseed"] = seg, rp, rng.randrange(1 << 30) if (seg == "random" or rp == "mix") else si
+                d["wplan"] = "backpressure" if d["kind"] == "early_mid" else rng.choice(
+                    ["none", "none", "stall", "trickle", "throttle", "backpressure", "backpressure"])
                 yield d
 
 
@@ -100,6 +119,12 @@ def directed_cases():
     yield dict(base, version="1.0", conn="keep-alive", method="GET", nka=True, kind="buffered", status=200, body="none")
     # handler finished before the request body arrived
     yield dict(base, version="1.1", conn=None, method="POST", nka=False, kind="early_after", status=200, body="cl")
+    # ... and the rest of the body arrives (and is discarded) while the finished response is still being flushed
+    yield dict(base, version="1.1", conn=None, method="POST", nka=False, kind="early_mid", status=200, body="cl", wplan="backpressure")
+    yield dict(base, version="1.0", conn="keep-alive", method="POST", nka=False, kind="early_mid", status=200, body="chunked",
+               wplan="backpressure")
+    for wp in ("stall", "throttle", "trickle", "backpressure"):
+        yield dict(base, version="1.1", conn=None, method="POST", nka=False, kind="early_with", status=200, body="chunked", wplan=wp)
 
 
 # ---------------------------------------------------------------------------
@@ -135,6 +160,8 @@ class KindHandler(web.RequestHandler):
                 await vloop.settle()
             if st == 200:
                 self.write(b"llo")
+                if box.get("big"):
+                    self.write(BIG)
             self.finish()
         finally:
             box["done"] += 1
@@ -156,6 +183,8 @@ class EarlyHandler(web.RequestHandler):
             st = _emit(self, box, False)
             if st == 200:
                 self.write(b"early")
+                if box.get("big"):
+                    self.write(BIG)
             self.finish()
         finally:
             box["done"] += 1
@@ -184,12 +213,37 @@ def request_parts(c):
     return head, body
 
 
+async def send_no_read(peer, data, cuts):
+    """Like Peer.send but the peer does not read what the server sends meanwhile (a client busy uploading)."""
+    pos = 0
+    for n in list(cuts) + [len(data)]:
+        seg = data[pos:pos + n]
+        pos += n
+        if not seg:
+            continue
+        try:
+            sent = peer.sock.send(seg)
+            if sent != len(seg):
+                peer.send_error = "short-send"
+        except OSError as e:
+            peer.send_error = e
+        if peer.send_error is not None:
+            return
+        await vloop.settle()
+    await vloop.settle()
+
+
 def execute(c):
     obs = P.Obs()
-    box = {"kind": c["kind"], "status": c["status"], "started": 0, "done": 0, "body_seen": 0, "raised": None}
+    wplan = c.get("wplan", "none")
+    backpressure = wplan == "backpressure"
+    box = {"kind": c["kind"], "status": c["status"], "started": 0, "done": 0, "body_seen": 0, "raised": None,
+           "big": wplan in ("throttle", "backpressure"), "flush_pending_when_body_sent": None,
+           "flush_pending_after_body_sent": None, "flush_pending_at_some_quiet_point": False}
     obs.box = box
     early = c["kind"].startswith("early")
     import random
+    import socket
     rng = random.Random(c.get("vseed", 0))
 
     async def main():
@@ -197,21 +251,48 @@ def execute(c):
         app = web.Application([("/p", EarlyHandler if early else KindHandler, {"box": box}), ("/second", P.SecondHandler)],
                               log_function=P._quiet)
         rig = wire.ServerRig(app, record=False, no_keep_alive=c["nka"])
-        peer = rig.connect(read_plan=wire.read_plan_for(rng, c["rplan"], 200))
+        wp = WPLANS[wplan]
+        peer = rig.connect(read_plan=wire.read_plan_for(rng, c["rplan"], 200), write_plan=list(wp) if wp else None)
         st = rig.streams[0]
+        if backpressure:
+            # real flow control: a small kernel send buffer and a peer that does not read until it has sent everything
+            st.socket.setsockopt(socket.SOL_SOCKET, socket.SO_SNDBUF, 4096)
+
+        def pending():
+            return (not st.closed()) and st.writing()
         try:
             head, body = request_parts(c)
+            # (bytes, what to wait for afterwards): "quiet" = full quiescence (response flushed); "handler" = only until
+            # the handler has finished, so the next stage arrives while the response may still sit in the write buffer
             if c["kind"] == "early_after":
-                stages = [head, body + P.SECOND_REQ]
+                stages = [(head, "quiet"), (body + P.SECOND_REQ, "quiet")]
+            elif c["kind"] == "early_mid":
+                stages = [(head, "handler"), (body + P.SECOND_REQ, "quiet")]
             else:
-                stages = [head + body + P.SECOND_REQ]
+                stages = [(head + body + P.SECOND_REQ, "quiet")]
             sent_all = True
-            for stage in stages:
+            for stage, wait in stages:
                 if peer.eof or peer.send_error is not None:
                     sent_all = False
                     break
-                await peer.send(stage, wire.cuts_for(rng, len(stage), c["seg"]))
-                obs.quiesced = (await P.quiesce(peer, st, box)) and obs.quiesced
+                if c["kind"] == "early_mid" and wait == "quiet":
+                    box["flush_pending_when_body_sent"] = pending()
+                cuts = wire.cuts_for(rng, len(stage), c["seg"])
+                if backpressure and not (c["kind"] == "early_after" and wait == "quiet" and stage is head):
+                    await send_no_read(peer, stage, cuts)
+                else:
+                    await peer.send(stage, cuts)
+                if pending():
+                    box["flush_pending_at_some_quiet_point"] = True
+                if wait == "handler":
+                    for _ in range(80):
+                        if box["done"] >= 1:
+                            break
+                        await vloop.settle()
+                else:
+                    if c["kind"] == "early_mid":
+                        box["flush_pending_after_body_sent"] = pending()
+                    obs.quiesced = (await P.quiesce(peer, st, box, cap=1500)) and obs.quiesced
             obs.second_sent = sent_all and peer.send_error is None
             obs.rx, obs.eof = bytes(peer.rx), peer.eof
             obs.send_error = repr(peer.send_error) if peer.send_error else None
@@ -266,8 +347,18 @@ def run_case(c, ctx):
     ex = X.read_exchange(obs.rx, obs.eof, [c["method"], "GET"])
     wit = {"rx": obs.rx[:900], "rx_len": len(obs.rx), "eof": obs.eof, "second_sent": obs.second_sent,
            "expected_keep": keep, "why_close": why_close, "unspecified": unspec, "exchange": ex.as_dict(),
-           "body_seen_by_app": obs.box["body_seen"], "logs": obs.logs[:3]}
+           "body_seen_by_app": obs.box["body_seen"], "logs": obs.logs[:3],
+           "flush_pending_when_body_sent": obs.box["flush_pending_when_body_sent"],
+           "flush_pending_after_body_sent": obs.box["flush_pending_after_body_sent"],
+           "flush_pending_across_quiet_point": obs.box["flush_pending_at_some_quiet_point"]}
     nontriv = obs.second_sent or obs.eof
+    if obs.box["flush_pending_when_body_sent"]:
+        ctx.count("early_mid_body_sent_while_flush_pending")
+    if obs.box["flush_pending_after_body_sent"]:
+        ctx.count("early_mid_flush_still_pending_after_body_arrived")
+    if obs.box["flush_pending_at_some_quiet_point"]:
+        ctx.count("flush_pending_across_quiet_point")
+    ctx.count("wplan_" + c.get("wplan", "none"))
     ctx.mark(tuple(sorted(c.items())), nontriv)
     if nontriv:
         ctx.sample(c)
